@@ -8,6 +8,7 @@ import CookModel.Lemmas.AisleRoundtrip
 import CookModel.Lemmas.AisleLookup
 import CookModel.Lemmas.AisleComplete
 import CookModel.Lemmas.AisleSink
+import CookModel.Lemmas.AisleUtf8
 /-
   C11  Aisle configuration parsing is total, duplicate-free and round-trips.
 
@@ -255,5 +256,62 @@ example : (parse ['[','é',']','\n','b','|','c','\n']).toOption.map (fun c => (w
     (parse ['[','é',']','\n','b','|','c','\n']).toOption.map (fun c => (writeTo c ⟨100, 7, []⟩)) =
       some (⟨100, 7, [91, 195, 169, 93, 10, 98, 124]⟩, false) := by decide +kernel
 -- ===== end w7reauditB =====
+
+-- ===== w10c11utf8 =====
+
+/-- **`from_utf8(s.as_bytes()) = Ok(s)` for every text.**  `utf8Encode` / `utf8Decode` (Side/AisleUtf8.lean) are the
+    hand-written byte level: the 1–4 byte forms by range of the scalar value, and the validation table of
+    `std::str::from_utf8` (lead bytes C2..DF / E0..EF / F0..F4 with the restricted second bytes that exclude overlong
+    forms, surrogates and values above 10FFFF).  Encoding any text and decoding the bytes gives the text back. -/
+theorem C11_utf8_roundtrip (s : List Char) : utf8Decode (utf8Encode s) = some s := autf_decode_encode s
+
+/-- the hand-written encoder produces the bytes the destination theorems (`C11_write_sink`, `utf8` = core
+    `String.utf8EncodeChar` per character) speak about -/
+theorem C11_utf8_encode_eq (s : List Char) : utf8 s = utf8Encode s := autf_utf8_eq s
+
+/-- **The round trip at the byte level.**  What a caller of `aisle::write` holds are bytes; read back with
+    `str::from_utf8` they are a text (never `Utf8Error`), and `aisle::parse` of that text is the configuration that was
+    written — for every parsed configuration. -/
+theorem C11_roundtrip_bytes (t : List Char) (c : Conf) (h : parse t = .ok c) :
+    ∃ s, utf8Decode (utf8Encode (write c)) = some s ∧ parse s = .ok c :=
+  ⟨write c, C11_utf8_roundtrip _, C11_roundtrip t c h⟩
+
+/-- the same for every well-formed configuration (`WF` = the range of `parse`, `C11_range_iff_wf`) -/
+theorem C11_roundtrip_bytes_wf (c : Conf) (h : WF c) :
+    ∃ s, utf8Decode (utf8Encode (write c)) = some s ∧ parse s = .ok c :=
+  ⟨write c, C11_utf8_roundtrip _, C11_roundtrip_wf c h⟩
+
+/-- … and through every destination (`C11_roundtrip_sink`): a parsed configuration written into an empty destination with
+    room for it, accepting any number ≥ 1 of bytes per call: `Ok`, and the BYTES THE DESTINATION HOLDS decode
+    (`str::from_utf8`) to a text whose parse is the configuration. -/
+theorem C11_roundtrip_sink_bytes (t : List Char) (c : Conf) (h : parse t = .ok c) (perCall cap : Nat) (hp : 0 < perCall)
+    (hcap : (utf8 (write c)).length ≤ cap) :
+    (writeTo c ⟨perCall, cap, []⟩).2 = true ∧
+    ∃ s, utf8Decode (writeTo c ⟨perCall, cap, []⟩).1.out = some s ∧ parse s = .ok c := by
+  obtain ⟨hok, hout, hrt⟩ := C11_roundtrip_sink t c h perCall cap hp hcap
+  exact ⟨hok, write c, by rw [hout, C11_utf8_encode_eq, C11_utf8_roundtrip], hrt⟩
+
+/-- non-vacuity: all four encoded lengths (`a`, `é` U+E9, `€` U+20AC, `😀` U+1F600) and the boundary values
+    7F/80, 7FF/800, FFFF/10000, 10FFFF; the file "[é€]\n😀|c\n" through a 3-bytes-per-call destination -/
+example : utf8Encode ['a', 'é', '€', '😀'] = [0x61, 0xC3, 0xA9, 0xE2, 0x82, 0xAC, 0xF0, 0x9F, 0x98, 0x80] ∧
+    utf8Decode [0x61, 0xC3, 0xA9, 0xE2, 0x82, 0xAC, 0xF0, 0x9F, 0x98, 0x80] = some ['a', 'é', '€', '😀'] ∧
+    utf8Encode [Char.ofNat 0x7F, Char.ofNat 0x80, Char.ofNat 0x7FF, Char.ofNat 0x800, Char.ofNat 0xFFFF,
+        Char.ofNat 0x10000, Char.ofNat 0x10FFFF] =
+      [0x7F, 0xC2, 0x80, 0xDF, 0xBF, 0xE0, 0xA0, 0x80, 0xEF, 0xBF, 0xBF, 0xF0, 0x90, 0x80, 0x80, 0xF4, 0x8F, 0xBF, 0xBF] ∧
+    (parse ['[','é','€',']','\n','😀','|','c','\n']).toOption.map
+        (fun c => utf8Decode (writeTo c ⟨3, 100, []⟩).1.out) =
+      some (some ['[','é','€',']','\n','😀','|','c','\n','\n']) := by decide +kernel
+
+/-- the decoder rejects what `from_utf8` rejects: truncated forms, overlong forms (C0 80, E0 80 80, F0 80 80 80),
+    a surrogate (ED A0 80 = U+D800), a value above 10FFFF (F4 90 80 80), a stray continuation byte, F5/FF leads -/
+example : utf8Decode [0xC3] = none ∧ utf8Decode [0xE2, 0x82] = none ∧ utf8Decode [0xF0, 0x9F, 0x98] = none ∧
+    utf8Decode [0xC0, 0x80] = none ∧ utf8Decode [0xC1, 0xBF] = none ∧ utf8Decode [0xE0, 0x80, 0x80] = none ∧
+    utf8Decode [0xE0, 0x9F, 0xBF] = none ∧ utf8Decode [0xF0, 0x80, 0x80, 0x80] = none ∧
+    utf8Decode [0xF0, 0x8F, 0xBF, 0xBF] = none ∧ utf8Decode [0xED, 0xA0, 0x80] = none ∧
+    utf8Decode [0xED, 0xBF, 0xBF] = none ∧ utf8Decode [0xF4, 0x90, 0x80, 0x80] = none ∧ utf8Decode [0x80] = none ∧
+    utf8Decode [0x61, 0xBF] = none ∧ utf8Decode [0xF5, 0x80, 0x80, 0x80] = none ∧ utf8Decode [0xFF] = none ∧
+    utf8Decode [0xC3, 0x41] = none ∧ utf8Decode [0xED, 0x9F, 0xBF] = some [Char.ofNat 0xD7FF] ∧
+    utf8Decode [0xEE, 0x80, 0x80] = some [Char.ofNat 0xE000] := by decide +kernel
+-- ===== end w10c11utf8 =====
 
 end Cook
